@@ -29,7 +29,8 @@ RULE = ("Engine B on a grammar product: states = distinct generator prefixes (pa
         "str(); evaluations = individual oracle comparisons (no exception/no warning, str()==text, block count, 9 "
         "attributes per block); non-trivial = documents with at least one change line that also use at least one "
         "optional grammar part (leading blank lines, several distributions, urgency comment, extra key=value pairs, "
-        "epoch version, blank or whitespace-only change line, or a second block)")
+        "epoch version, blank or whitespace-only change line, or a second block); sweep: one state / transition / trace "
+        "per single-block document in which one grammar component carries one swept character")
 BUDGET = {"quick": 240, "thorough": 3000}
 
 POOL_SIZE = 30
@@ -48,6 +49,8 @@ def bounds(tier):
         "pairs": "all 30^2 ordered pairs x separator of 1..2 blank lines x 0..2 leading blank lines",
         "triples": "all 30^3 ordered triples x (1..2)^2 separators x %s leading blank lines" % (
             "0 (quick tier, to stay inside the 30 s limit)" if tier == "quick" else "0..2"),
+        "sweep": "one legal character at a time in one component of an otherwise fixed single block: " + ", ".join(
+            "%s %s x %d" % (name, " / ".join(tpls).replace("%s", "<c>"), len(chars)) for name, tpls, chars in sweep_plan()),
     }
 
 
@@ -62,6 +65,10 @@ def assumptions():
         "the text is given as str (the statement's observation point); bytes / line-list input forms are not explored",
         "seed rotates only letters/words inside components (package word, suite names, change text, author name); "
         "the classes of the six regexes see the same character classes for every seed",
+        "sweep character sets: package and distribution names [-+.0-9a-zA-Z] (deb-changelog(5); upper case as in "
+        "UNRELEASED), versions [A-Za-z0-9.+~-] and the epoch colon as '1:2', urgency values and keys [-0-9a-zA-Z], change "
+        "text: printable ASCII U+0020..U+007E and 12 non-ASCII characters; other characters (control characters, line "
+        "separators) are not well-formed changelog text and are not demanded",
     ]
 
 
@@ -117,6 +124,51 @@ def pool(C):
     assert {repr(b[5]) for b in blocks} == {repr(k) for k in C["kv"]}
     assert {l for b in blocks for l in b[6]} == set(C["chg"])
     return blocks
+
+
+# ------------------------------------------------------------------------------------------------
+# sweep: one legal character at a time
+
+_LOWER = "abcdefghijklmnopqrstuvwxyz"
+_DIGITS = "0123456789"
+SWEEP_NON_ASCII = ["\u00e9", "\u00df", "\u03a9", "\u044f", "\u4e2d", "\u00e7", "\u00f1", "\u00f8", "\u0436", "\u00fc",
+                   "\u03bb", "\u221a"]
+# block column of each component (see mkblock)
+_SWEEP_COL = {"package": 0, "version": 1, "distributions": 2, "urgency": 3, "key": 5, "change": 6}
+
+
+def sweep_plan():
+    """-> [(component, templates with %s for the swept character, characters)] in canonical order"""
+    name_chars = list("-+." + _DIGITS + _LOWER + _LOWER.upper())
+    word_chars = list("-" + _DIGITS + _LOWER + _LOWER.upper())
+    return [
+        ("package", ["a%sb"], name_chars),
+        ("version", ["1%s2"], list(".+~-" + _DIGITS + _LOWER + _LOWER.upper()) + [":"]),
+        ("distributions", ["a%sb", "unstable a%sb"], name_chars),
+        ("urgency", ["a%sb"], word_chars),
+        ("key", ["a%sb"], word_chars),
+        ("change", ["  * x%sy"], [chr(cp) for cp in range(0x20, 0x7F)] + SWEEP_NON_ASCII),
+    ]
+
+
+def sweep_cases(component):
+    base = ["pkg", "1.0-1", "unstable", "low", "", [], ["  * x"], "A B <a@b.c>", "Mon, 01 Jan 2024 00:00:00 +0000"]
+    out = []
+    for name, tpls, chars in sweep_plan():
+        if name != component:
+            continue
+        for c in chars:
+            for t in tpls:
+                x = t % c
+                b = list(base)
+                if name == "key":
+                    b[5] = [[x, "yes"]]
+                elif name == "change":
+                    b[6] = [x]
+                else:
+                    b[_SWEEP_COL[name]] = x
+                out.append({"lead": 0, "blocks": [b], "seps": []})
+    return out
 
 
 # ------------------------------------------------------------------------------------------------
@@ -275,6 +327,7 @@ def units(tier, seed):
     for i in range(POOL_SIZE):
         for j in range(POOL_SIZE):
             out.append(("triple", i, j))
+    out += [("sweep", name) for name, _t, _c in sweep_plan()]
     return out
 
 
@@ -284,6 +337,8 @@ def unit_cost(u, tier):
         return 9 * n * len(_author_dates(tier))
     if u[0] == "pair":
         return 2 * POOL_SIZE * 3 * 2
+    if u[0] == "sweep":
+        return 130
     return 3 * POOL_SIZE * len(_triple_leads(tier)) * 4
 
 
@@ -338,6 +393,23 @@ def run_unit(u, tier, seed):
                                 part.sample(case)
         part.sample(case)
         part.extra["single-block documents"] += k
+        return part
+    if u[0] == "sweep":
+        cases = sweep_cases(u[1])
+        part.max_depth = 4
+        for case in cases:
+            part.states += 1
+            part.transitions += 1
+            bad, outcome, ev = exec_case(case)
+            part.traces += 1
+            part.evaluations += ev
+            part.outcomes["sweep/%s: %s" % (u[1], outcome)] += 1
+            if nontrivial(case):
+                part.nontrivial += 1
+            for sig, exp, obs in bad:
+                part.violation(sig, case, exp, obs)
+            part.extra["sweep documents"] += 1
+        part.sample(cases[0])
         return part
     P = pool(C)
     if u[0] == "pair":
